@@ -2,12 +2,12 @@
 # eval_seed.sh <ID> <k> <PROP>...   : apply /tmp/mut/out/<ID>/m<k>/patch.diff in the scratch worktree /tmp/mut/<ID>, run the listed checks
 # (quick tier) against THAT worktree through tools/seedrun.py, revert the worktree, remove the scratch build. Result: /tmp/mut/out/<ID>/m<k>/eval.txt
 ID=$1; K=$2; shift 2
-WT=/tmp/mut/$ID; D=${SEED_OUT:-/tmp/mut/out}/$ID/m$K; SC=/tmp/seedrun/$ID-m$K
+WT=${SEED_WT:-/tmp/mut/$ID}; D=${SEED_OUT:-/tmp/mut/out}/$ID/m$K; SC=/tmp/seedrun/$ID-m$K
 TIER=${SEED_TIER:-quick}
 cd $WT && git checkout -q -- . && git apply $D/patch.diff || { echo "cannot apply" > $D/eval.txt; exit 2; }
 {
 echo "== $(date -u) $ID m$K props: $* tier: $TIER"
-python3 /verif/tools/seedrun.py $WT $SC "$@" --tier $TIER 2>&1 | grep -E "VIOLATION|KNOWN-FINDING|INCONCLUSIVE|counterexample|native replay|seedrun:|harnesses held" 
+python3 ${VERIF_ROOT:-/verif}/tools/seedrun.py $WT $SC "$@" --tier $TIER 2>&1 | grep -E "VIOLATION|KNOWN-FINDING|INCONCLUSIVE|counterexample|native replay|seedrun:|harnesses held" 
 } > $D/eval.txt 2>&1
 cd $WT && git checkout -q -- .
 rm -rf $SC/build $SC/harness/target
